@@ -238,6 +238,21 @@ pub fn range(depth: usize) -> Value {
         preds.push((format!("k > {c1} and k < {c2} and v = 1"), Box::new(move |k, v, _| k > c1 && k < c2 && v == 1), Box::new(move |kind| format!("k > {} and k < {} and v = 1", kc(kind, c1), kc(kind, c2)))));
         preds.push((format!("k >= {c1} and v <> 0"), Box::new(move |k, v, _| k >= c1 && v != 0), Box::new(move |kind| format!("k >= {} and v <> 0", kc(kind, c1)))));
     }
+    // an equality together with a bound at / next to the same constant (point ranges, contradictions)
+    for c in [6i64, 5, 0, kmax] {
+        for d in [-1i64, 0, 1] {
+            let b = c + d;
+            for op in ["<", "<=", ">", ">="] {
+                let f: Box<dyn Fn(i64, i64, KeyKind) -> bool> = match op {
+                    "<" => Box::new(move |k, _, _| k == c && k < b), "<=" => Box::new(move |k, _, _| k == c && k <= b),
+                    ">" => Box::new(move |k, _, _| k == c && k > b), _ => Box::new(move |k, _, _| k == c && k >= b) };
+                preds.push((format!("k = {c} and k {op} {b}"), f, Box::new(move |kind| format!("k = {} and k {op} {}", kc(kind, c), kc(kind, b)))));
+            }
+        }
+        preds.push((format!("k = {c} and k = {c}"), Box::new(move |k, _, _| k == c), Box::new(move |kind| format!("k = {} and k = {}", kc(kind, c), kc(kind, c)))));
+        preds.push((format!("k = {c} and k = {}", c + 2), Box::new(move |_, _, _| false), Box::new(move |kind| format!("k = {} and k = {}", kc(kind, c), kc(kind, c + 2)))));
+        preds.push((format!("{c} < k and k = {c} and v >= 0"), Box::new(move |_, _, _| false), Box::new(move |kind| format!("{} < k and k = {} and v >= 0", kc(kind, c), kc(kind, c)))));
+    }
     let projections = ["*", "v", "k", "w, k"];
     for e in engines() {
         if e == Engine::Mem && depth < 2 { continue; } // range push-down exists on the disk engine only
@@ -790,7 +805,7 @@ pub fn ddl(depth: usize) -> Value {
     rec(&mut vec![], &mut vec![false; ntab], &mut vec![0; ntab], len, ntab, &mut seqs);
     // histories without a reopen say nothing about durability
     let seqs: Vec<Vec<D>> = seqs.into_iter().filter(|s| s.contains(&D::Reopen)).collect();
-    let stride = (seqs.len() / match depth { 0 | 1 => 30, 2 => 200, _ => usize::MAX }).max(1);
+    let stride = (seqs.len() / match depth { 0 | 1 => 16, 2 => 160, _ => usize::MAX }).max(1);
     let e = Engine::Disk { block: 64, rowset: 1 };
     // statements that may be refused, but must never leave a log that cannot be replayed
     for odd in ["create table bad(_rowid_ int)", "create table bad(a int, a int)", "create table d0(z int)", "drop table nosuch", "drop table d0, d0", "insert into d0 values (1)", "create table bad(a int primary key, b int primary key)"] {
@@ -804,8 +819,17 @@ pub fn ddl(depth: usize) -> Value {
             Err(err) => return found_raw(tried, e, &sqls, &[3], 3, "the database to reopen after the (possibly refused) statement".into(), err),
         }
     }
-    for (si, s) in seqs.iter().enumerate() {
-        if si % stride != 0 { continue; }
+    // histories that are always run, whatever the sampling picks: a table dropped before a later one that has rows (table ids
+    // are re-derived from the logged DDL), deletes carried over two recoveries, a table re-created under the same name
+    let directed: Vec<Vec<D>> = vec![
+        vec![D::Create(0), D::Create(1), D::Ins(1), D::Drop(0), D::Reopen, D::Ins(1), D::Reopen],
+        vec![D::Create(0), D::Ins(0), D::Ins(0), D::Del(0), D::Reopen, D::Del(0), D::Reopen],
+        vec![D::Create(0), D::Ins(0), D::Drop(0), D::Create(0), D::Ins(0), D::Reopen],
+        vec![D::Create(1), D::Create(0), D::Ins(0), D::Del(0), D::Drop(1), D::Reopen, D::Create(1), D::Ins(1), D::Reopen],
+    ];
+    let nd = directed.len();
+    for (si, s) in directed.iter().chain(seqs.iter()).enumerate() {
+        if si >= nd && (si - nd) % stride != 0 { continue; }
         let mut sqls: Vec<String> = vec![];
         let mut reopen = vec![];
         let mut model: Vec<Option<Vec<(i64, i64)>>> = vec![None; ntab];
@@ -825,9 +849,14 @@ pub fn ddl(depth: usize) -> Value {
                 D::Del(t) => { sqls.push(format!("delete from d{t} where v = 1")); model[*t].as_mut().unwrap().retain(|(_, v)| *v != 1); }
                 D::Reopen => { reopen.push(sqls.len()); }
             }
-            for t in 0..ntab {
-                sqls.push(format!("select k, v from d{t}"));
-                checks.push((sqls.len() - 1, t, model[t].as_ref().map(|rows| sorted(rows.iter().map(|(k, v)| vec![k.to_string(), v.to_string()]).collect()))));
+            // a reopen step is TWO shutdown + reopen cycles: every bootstrap rewrites the manifest, and what the first cycle
+            // wrote is what the second one recovers from
+            for cycle in 0..(if *op == D::Reopen { 2 } else { 1 }) {
+                if cycle == 1 { reopen.push(sqls.len()); }
+                for t in 0..ntab {
+                    sqls.push(format!("select k, v from d{t}"));
+                    checks.push((sqls.len() - 1, t, model[t].as_ref().map(|rows| sorted(rows.iter().map(|(k, v)| vec![k.to_string(), v.to_string()]).collect()))));
+                }
             }
         }
         tried += sqls.len() as u64;
